@@ -161,7 +161,8 @@ static void stub_free(int tag, void* ptr) {
         if (i == w->nlive) {
             bool dbl = false;
             for (int k = 0; k < 64; ++k) if (w->freed_ring[k] == ptr) dbl = true;
-            verdict |= dbl ? PV_FREE_DOUBLE : PV_FREE_FOREIGN;      /* not handed to the real free */
+            verdict |= dbl ? PV_FREE_DOUBLE : PV_FREE_FOREIGN;      /* not handed to the real free ... */
+            if (!dbl && w->foreign_passthrough) free(ptr);           /* ... unless the allocator of this table is libc malloc */
         } else {
             const uint8_t* b = ptr; size_t n = w->live[i].size;
             for (size_t k = 0; k < n; ++k) if (b[k]) { verdict |= PV_FREE_NOTZERO; break; }
@@ -573,6 +574,31 @@ bool pv_gen_exact_length(pv_rng* r, const pv_mlang* L, unsigned coin, long targe
                 memcpy(d, c, sizeof c); d[1] ^= coin & 2047;
                 return true;
             }
+        }
+    }
+    return false;
+}
+
+bool pv_gen_from_set(pv_rng* r, const unsigned* S, int n, unsigned coin, unsigned enabled, unsigned d[16], pv_mseed* seed_out) {
+    if (n < 2) return false;
+    static uint8_t member[PV_NWORDS];
+    memset(member, 0, sizeof member);
+    for (int i = 0; i < n; ++i) member[S[i] & 2047] = 1;
+    for (int attempt = 0; attempt < 300; ++attempt) {
+        unsigned c[16]; bool ok = true;
+        for (int k = 2; k < 16 && ok; ++k) {
+            int tries = 0;
+            do { c[k] = S[pv_randn(r, (uint32_t)n)]; ++tries; }
+            while (tries < 64 && ((k == 2 && (c[k] & 1)) || (k >= 3 && k <= 5 && (c[k] & 1) && !(enabled & (1u << (5 - k))))));
+            if (tries >= 64) ok = false;
+        }
+        if (!ok) continue;
+        int start = (int)pv_randn(r, (uint32_t)n);
+        for (int t = 0; t < n; ++t) {
+            unsigned w1 = S[(start + t) % n];
+            c[1] = (w1 ^ coin) & 2047;
+            c[0] = pv_m_checkvalue(c);
+            if (member[c[0]]) { if (seed_out) pv_m_unpack(c, seed_out); memcpy(d, c, sizeof c); d[1] ^= coin & 2047; return true; }
         }
     }
     return false;
